@@ -214,3 +214,94 @@ Lemma write_or_throw_ok data o :
   exists o', write_or_throw data o = (Ok tt, o') /\ os_sink o' = os_sink o ++ data /\
     os_src o' = os_src o /\ no_err (os_script o') = true /\ length (os_script o') <= length (os_script o).
 Proof. intros H. apply write_or_throw_loop_ok; [exact H|lia]. Qed.
+
+(* ---- ErsatzPRead: exactly bytes [off, off+size) of the file ---- *)
+Lemma ersatz_pread_loop_ok : forall fuel size off file acc o,
+  no_err (os_script o) = true -> size + length (os_script o) < fuel -> off + size <= length file ->
+  exists o', ersatz_pread_loop fuel size off file acc o = (Ok (acc ++ firstn size (skipn off file)), o') /\
+    no_err (os_script o') = true /\ os_sink o' = os_sink o /\ os_src o' = os_src o.
+Proof.
+  induction fuel as [|f IH]; intros size off file acc o Hne Hf Hlen; [lia|].
+  destruct size as [|r].
+  - exists o. simpl. rewrite app_nil_r. auto.
+  - cbn [ersatz_pread_loop]. unfold sys_pread.
+    destruct (next_outcome_cases o Hne) as (oc & rest & Hn & Hr & Hoc & Hl & Hei). rewrite Hn.
+    assert (Hdata : forall oc', (forall e, oc' <> Err e) -> oc' <> Eintr ->
+              exists o', (let l := firstn (granted oc' (S r)) (skipn off file) in
+                match l with
+                | [] => (Fail EEndOfFile, mkOs (os_src o) rest ((S r, Z.of_nat (length l)) :: os_trace o) (os_sink o))
+                | _ => ersatz_pread_loop f (S r - length l) (off + length l) file (acc ++ l)
+                         (mkOs (os_src o) rest ((S r, Z.of_nat (length l)) :: os_trace o) (os_sink o))
+                end) = (Ok (acc ++ firstn (S r) (skipn off file)), o') /\
+                no_err (os_script o') = true /\ os_sink o' = os_sink o /\ os_src o' = os_src o).
+    { intros oc' _ _. cbv zeta.
+      pose proof (granted_le oc' (S r)) as Hg1. pose proof (granted_pos oc' (S r)) as Hg2.
+      set (g := granted oc' (S r)) in *.
+      assert (Hlg : length (firstn g (skipn off file)) = g) by (rewrite firstn_length, skipn_length; lia).
+      destruct (firstn g (skipn off file)) as [|b l] eqn:El; [simpl in Hlg; lia|].
+      rewrite <- El in *. rewrite Hlg.
+      destruct (IH (S r - g) (off + g) file (acc ++ firstn g (skipn off file))
+                  (mkOs (os_src o) rest ((S r, Z.of_nat g) :: os_trace o) (os_sink o))) as (o' & E & R); auto.
+      { cbn [os_script]. lia. } { lia. }
+      exists o'. rewrite E. split; [|exact R]. f_equal. f_equal. rewrite <- app_assoc. f_equal.
+      rewrite <- (firstn_skipn g (firstn (S r) (skipn off file))).
+      rewrite firstn_firstn. replace (Nat.min g (S r)) with g by lia. f_equal.
+      rewrite skipn_firstn_comm. f_equal.
+      clear. revert file. induction off as [|off IHo]; intros file; [reflexivity|].
+      destruct file; simpl; [destruct g; reflexivity|apply IHo]. }
+    destruct oc as [|k| |e].
+    + apply Hdata; [exact Hoc|discriminate].
+    + apply Hdata; [exact Hoc|discriminate].
+    + specialize (Hei eq_refl).
+      destruct (IH (S r) off file acc (mkOs (os_src o) rest ((S r, (-1)%Z) :: os_trace o) (os_sink o))) as (o' & E & R); auto.
+      { cbn [os_script]. lia. }
+      exists o'. split; [exact E|exact R].
+    + exfalso. eapply Hoc. reflexivity.
+Qed.
+
+Lemma ersatz_pread_ok size off file o :
+  no_err (os_script o) = true -> off + size <= length file ->
+  exists o', ersatz_pread size off file o = (Ok (firstn size (skipn off file)), o') /\
+    no_err (os_script o') = true /\ os_sink o' = os_sink o /\ os_src o' = os_src o.
+Proof.
+  intros H Hl. destruct (ersatz_pread_loop_ok (S size + length (os_script o)) size off file [] o H) as (o' & E & R); [lia|exact Hl|].
+  exists o'. split; [exact E|exact R].
+Qed.
+
+(* ---- BufferedStream<FileWriter>: what reaches the descriptor is the concatenation of the writes ---- *)
+Lemma bs_spill_ok b o : no_err (os_script o) = true ->
+  exists o', bs_spill b o = (Ok (mkBs [] (bs_cap b)), o') /\ os_sink o' = os_sink o ++ bs_buf b /\
+    no_err (os_script o') = true.
+Proof.
+  intros Hne. unfold bs_spill. destruct b as [buf cap]. simpl. destruct buf as [|x buf].
+  - exists o. rewrite app_nil_r. auto.
+  - destruct (write_or_throw_ok (x :: buf) o Hne) as (o' & E & H1 & H2 & H3 & H4). rewrite E.
+    exists o'. auto.
+Qed.
+
+Lemma bs_write_ok data b o : no_err (os_script o) = true ->
+  exists b' o', bs_write data b o = (Ok b', o') /\ os_sink o' ++ bs_buf b' = os_sink o ++ bs_buf b ++ data /\
+    bs_cap b' = bs_cap b /\ no_err (os_script o') = true.
+Proof.
+  intros Hne. unfold bs_write.
+  destruct (length (bs_buf b) + length data <=? bs_cap b).
+  - eexists _, o. split; [reflexivity|]. simpl. auto.
+  - destruct (bs_spill_ok b o Hne) as (o1 & E1 & S1 & N1). rewrite E1. cbn [bs_buf bs_cap].
+    destruct (length (@nil Z) + length data <=? bs_cap b).
+    + eexists _, o1. split; [reflexivity|]. cbn [bs_buf bs_cap]. rewrite S1, <- app_assoc. auto.
+    + destruct (write_or_throw_ok data o1 N1) as (o2 & E2 & S2 & _ & N2 & _). rewrite E2.
+      eexists _, o2. split; [reflexivity|]. cbn [bs_buf bs_cap]. rewrite S2, S1, app_nil_r, <- app_assoc. auto.
+Qed.
+
+Lemma bs_run_ok : forall ws b o, no_err (os_script o) = true ->
+  exists b' o', bs_run ws b o = (Ok b', o') /\ os_sink o' = os_sink o ++ bs_buf b ++ concat ws /\
+    no_err (os_script o') = true.
+Proof.
+  induction ws as [|w ws IH]; intros b o Hne.
+  - simpl. unfold bs_flush. destruct (bs_spill_ok b o Hne) as (o' & E & S & N). rewrite E.
+    eexists _, o'. rewrite app_nil_r. auto.
+  - simpl. destruct (bs_write_ok w b o Hne) as (b1 & o1 & E1 & S1 & _ & N1). rewrite E1.
+    destruct (IH b1 o1 N1) as (b2 & o2 & E2 & S2 & N2). rewrite E2.
+    eexists _, o2. split; [reflexivity|]. split; [|exact N2].
+    rewrite S2, app_assoc, S1, <- !app_assoc. reflexivity.
+Qed.
